@@ -64,6 +64,7 @@ type cvar struct {
 	key, pkg, name    string
 	typ               string
 	hasInit, exported bool
+	initLit           bool // no initialiser, or a slice composite literal (len == cap by the language spec)
 	kind              string
 	holds             *ctype
 	writes            []wsite
@@ -89,6 +90,7 @@ type cfunc struct {
 	doArgOf   map[string]int // once key -> number of uses as <once>.Do(f)
 	onceBody  string         // once key if the function is only ever used as <once>.Do(f)
 	mut       map[int]bool   // parameter index (-1 receiver) -> written through
+	app       map[int]bool   // parameter index -> appended to (spare capacity may be written)
 	ensures   map[string]bool
 	accessor  map[string]bool // var keys a returned reference is rooted at
 	hasWrite  bool
@@ -126,6 +128,10 @@ type extractor struct {
 	errs  []string
 	// summary pass: did anything change
 	changed bool
+	// shared-append analysis
+	sharedTypes map[string]bool
+	appCands    []appCand
+	fieldVals   map[string][]bool
 }
 
 func varKey(v *types.Var) string { return v.Pkg().Path() + "." + v.Name() }
@@ -292,6 +298,15 @@ func (x *extractor) collect() {
 							v := &cvar{key: varKey(obj), pkg: p.dir, name: nm.Name, hasInit: len(vs.Values) > 0,
 								exported: nm.IsExported(), pos: nm.Pos(),
 								typ: types.TypeString(obj.Type(), func(q *types.Package) string { return q.Name() })}
+							if len(vs.Values) == 0 {
+								v.initLit = true
+							} else if len(vs.Values) == len(vs.Names) {
+								for i2, n2 := range vs.Names {
+									if n2 == nm {
+										v.initLit = isSliceLit(vs.Values[i2])
+									}
+								}
+							}
 							v.kind = syncKind(obj.Type())
 							if _, isPtr := obj.Type().(*types.Pointer); isPtr && v.kind != "" {
 								v.kind = "" // a pointer to a sync object is a plain variable
@@ -315,7 +330,7 @@ func (x *extractor) collect() {
 						continue // init functions are walked as contexts, never called
 					}
 					fn := &cfunc{key: obj.FullName(), name: strings.TrimPrefix(strings.TrimPrefix(obj.FullName(), goatPath), "/"),
-						decl: d, pkg: p, obj: obj, doArgOf: map[string]int{}, mut: map[int]bool{}, ensures: map[string]bool{},
+						decl: d, pkg: p, obj: obj, doArgOf: map[string]int{}, mut: map[int]bool{}, app: map[int]bool{}, ensures: map[string]bool{},
 						accessor: map[string]bool{}, fieldWrites: map[string]bool{}}
 					if sig := obj.Type().(*types.Signature); sig.Recv() != nil {
 						if n := x.repoNamedStruct(sig.Recv().Type()); n != nil {
@@ -439,6 +454,7 @@ func genAccessTable() ([]byte, error) {
 		return nil, err
 	}
 	x.collect()
+	x.computeSharedTypes()
 	x.scanFuncRefs()
 	// parameter-mutation summaries, ensures and accessors: to a fixed point
 	for round := 0; ; round++ {
@@ -626,6 +642,7 @@ func (x *extractor) emit() []byte {
 	}
 	b.WriteString("]\n\ndef table : AccessTable := ⟨accessTable, funcTable, typeTable⟩\n\n")
 	x.emitFlights(&b)
+	x.emitSharedAppends(&b)
 	b.WriteString("end Gen\n")
 	return b.Bytes()
 }
@@ -723,6 +740,8 @@ func (x *extractor) resetSites() {
 	for _, t := range x.types {
 		t.instances = nil
 	}
+	x.appCands = nil
+	x.fieldVals = map[string][]bool{}
 }
 
 func (x *extractor) walkAll(_ bool) {
@@ -1104,6 +1123,7 @@ func (w *walker) assign(l ast.Expr, r ast.Expr, tok token.Token) {
 		}
 		w.exprStoredInto(r, u, l)
 	}
+	w.fieldAssign(l, r, kind)
 	w.expr(l, use{kind: uWrite, wkind: kind})
 }
 
@@ -1338,6 +1358,7 @@ func (w *walker) expr(e ast.Expr, u use) {
 		w.expr(e.Value, use{kind: uStore})
 	case *ast.CompositeLit:
 		w.instance(e, w.p.info.TypeOf(e))
+		w.litFieldVals(e)
 		_, isMap := w.p.info.TypeOf(e).Underlying().(*types.Map)
 		for _, el := range e.Elts {
 			if kv, ok := el.(*ast.KeyValueExpr); ok {
@@ -1425,7 +1446,7 @@ func (w *walker) funcLit(e *ast.FuncLit, sameCtx bool, once string) {
 		key := "lit@" + w.x.pos(e.Pos())
 		fn := w.x.funcs[key]
 		if fn == nil {
-			fn = &cfunc{key: key, name: key, pkg: w.p, doArgOf: map[string]int{}, mut: map[int]bool{}, ensures: map[string]bool{},
+			fn = &cfunc{key: key, name: key, pkg: w.p, doArgOf: map[string]int{}, mut: map[int]bool{}, app: map[int]bool{}, ensures: map[string]bool{},
 				accessor: map[string]bool{}, fieldWrites: map[string]bool{}, valueUses: 1}
 			fn.obj = types.NewFunc(e.Pos(), w.p.tpkg, "lit", types.NewSignatureType(nil, nil, nil, nil, nil, false))
 			w.x.funcs[key] = fn
@@ -1476,6 +1497,9 @@ func (w *walker) call(c *ast.CallExpr, u use) {
 					w.instance(c, info.TypeOf(c.Args[0]))
 				}
 			default:
+				if id.Name == "append" && len(c.Args) > 0 {
+					w.appendTo(c, c.Args[0], "append")
+				}
 				for _, a := range c.Args {
 					w.expr(a, use{kind: uRead})
 				}
@@ -1544,6 +1568,18 @@ func (w *walker) call(c *ast.CallExpr, u use) {
 		w.expr(fun, use{kind: uRead})
 	}
 	_ = sig
+	if callee != nil {
+		for i, a := range c.Args {
+			if callee.app[i] {
+				w.appendTo(c, a, "passed to "+callee.name+", which appends to it")
+			}
+		}
+	} else if ext != "" && len(c.Args) > 0 {
+		name := ext[strings.LastIndex(ext, ".")+1:]
+		if strings.HasPrefix(name, "Append") || (name == "Sum" && len(c.Args) == 1 && strings.HasPrefix(ext, "(")) || ext == "slices.Insert" || ext == "slices.Grow" {
+			w.appendTo(c, c.Args[0], ext)
+		}
+	}
 	for i, a := range c.Args {
 		w.expr(a, use{kind: uArg, callee: callee, ext: ext, idx: i})
 	}
@@ -1676,4 +1712,257 @@ func (x *extractor) emitFlights(b *bytes.Buffer) {
 		fmt.Fprintf(os.Stderr, "translator: conc: flight context fact %s at %s (%s)\n", c.kind, c.pos, c.ident)
 	}
 	b.WriteString("]\n\n")
+}
+
+// ---------------------------------------------------------------------------------------------
+// shared appends: `append(x, …)` (and append-like callees: Append*, hash.Sum, repository functions
+// that append to a parameter) where x is (a field of) a package-level variable or of an object of
+// a type whose instances are held by package-level variables.  If cap(x) > len(x) the call WRITES
+// into the shared backing array.  Not a fact entry only if len(x) == cap(x) is established:
+// x is a full slice expression x[a:b:b] / slices.Clip(x); x is a package-level variable with a
+// slice-literal (or no) initialiser and no write site; x is a field all of whose assigned values
+// (composite literals of the struct, assignments) are slice literals, nil, full slice expressions.
+
+type appCand struct {
+	pos, path, what  string
+	varKey, fieldKey string
+}
+
+func isSliceLit(e ast.Expr) bool {
+	cl, ok := stripParens(e).(*ast.CompositeLit)
+	if !ok {
+		return false
+	}
+	at, ok := cl.Type.(*ast.ArrayType)
+	return ok && at.Len == nil
+}
+
+func (x *extractor) computeSharedTypes() {
+	x.sharedTypes = map[string]bool{}
+	var work []*types.Named
+	for _, v := range x.vars {
+		if v.holds != nil && !x.sharedTypes[v.holds.key] {
+			x.sharedTypes[v.holds.key] = true
+			work = append(work, v.holds.named)
+		}
+	}
+	var elem func(t types.Type) types.Type
+	elem = func(t types.Type) types.Type {
+		switch u := t.(type) {
+		case *types.Pointer:
+			return elem(u.Elem())
+		case *types.Slice:
+			return elem(u.Elem())
+		case *types.Array:
+			return elem(u.Elem())
+		case *types.Map:
+			return elem(u.Elem())
+		}
+		return t
+	}
+	for len(work) > 0 {
+		n := work[len(work)-1]
+		work = work[:len(work)-1]
+		st, ok := n.Underlying().(*types.Struct)
+		if !ok {
+			continue
+		}
+		for i := 0; i < st.NumFields(); i++ {
+			if fn := x.repoNamedStruct(elem(st.Field(i).Type())); fn != nil {
+				ct := x.typeOf(fn)
+				if !x.sharedTypes[ct.key] {
+					x.sharedTypes[ct.key] = true
+					work = append(work, fn)
+				}
+			}
+		}
+	}
+}
+
+func (w *walker) clipped(e ast.Expr) bool {
+	switch e := stripParens(e).(type) {
+	case *ast.SliceExpr:
+		return e.Slice3 && e.High != nil && e.Max != nil && types.ExprString(e.High) == types.ExprString(e.Max)
+	case *ast.CallExpr:
+		if sel, ok := e.Fun.(*ast.SelectorExpr); ok {
+			if f, ok := w.p.info.Uses[sel.Sel].(*types.Func); ok && f.FullName() == "slices.Clip" {
+				return true
+			}
+		}
+	}
+	return false
+}
+
+// establishedValue: is len == cap known for the value e (or is e not a slice at all)?
+func (w *walker) establishedValue(e ast.Expr) bool {
+	if e == nil {
+		return false
+	}
+	t := w.p.info.TypeOf(e)
+	if t != nil {
+		if _, isSlice := t.Underlying().(*types.Slice); !isSlice {
+			if b, ok := t.(*types.Basic); !ok || b.Kind() != types.UntypedNil {
+				return true
+			}
+		}
+	}
+	e = stripParens(e)
+	if id, ok := e.(*ast.Ident); ok && id.Name == "nil" {
+		return true
+	}
+	return isSliceLit(e) || w.clipped(e)
+}
+
+func (w *walker) fieldKeyOf(sel *ast.SelectorExpr) string {
+	s, ok := w.p.info.Selections[sel]
+	if !ok || s.Kind() != types.FieldVal {
+		return ""
+	}
+	n := w.x.repoNamedStruct(s.Recv())
+	if n == nil {
+		return ""
+	}
+	return n.Obj().Pkg().Path() + "." + n.Obj().Name() + "." + sel.Sel.Name
+}
+
+func (w *walker) litFieldVals(cl *ast.CompositeLit) {
+	n := w.x.repoNamedStruct(w.p.info.TypeOf(cl))
+	if n == nil {
+		return
+	}
+	st := n.Underlying().(*types.Struct)
+	prefix := n.Obj().Pkg().Path() + "." + n.Obj().Name() + "."
+	for i, el := range cl.Elts {
+		if kv, ok := el.(*ast.KeyValueExpr); ok {
+			if id, ok := kv.Key.(*ast.Ident); ok {
+				w.x.fieldVals[prefix+id.Name] = append(w.x.fieldVals[prefix+id.Name], w.establishedValue(kv.Value))
+			}
+		} else if i < st.NumFields() {
+			k := prefix + st.Field(i).Name()
+			w.x.fieldVals[k] = append(w.x.fieldVals[k], w.establishedValue(el))
+		}
+	}
+}
+
+func (w *walker) fieldAssign(l, r ast.Expr, kind string) {
+	sel, ok := stripParens(l).(*ast.SelectorExpr)
+	if !ok {
+		return
+	}
+	if k := w.fieldKeyOf(sel); k != "" {
+		w.x.fieldVals[k] = append(w.x.fieldVals[k], kind == "assign" && w.establishedValue(r))
+	}
+}
+
+// sharedPath: is e (part of) shared memory?  varKey / fieldKey are set when e is exactly a
+// package-level variable / exactly a field of a repository struct (then len == cap may be known).
+func (w *walker) sharedPath(e ast.Expr) (shared bool, varKey, fieldKey string) {
+	direct := true
+	cur := stripParens(e)
+	if sel, ok := cur.(*ast.SelectorExpr); ok {
+		if cv := w.x.pkgVarOf(w.p, sel); cv != nil {
+			return true, cv.key, ""
+		}
+		fieldKey = w.fieldKeyOf(sel)
+	} else if id, ok := cur.(*ast.Ident); ok {
+		if v, ok := w.p.info.Uses[id].(*types.Var); ok && isPkgLevel(v) {
+			if cv := w.x.vars[varKey2(v)]; cv != nil {
+				return true, cv.key, ""
+			}
+		}
+	}
+	for _, o := range w.root(e) {
+		if o.v != nil {
+			shared = true
+		}
+	}
+	for {
+		switch x := cur.(type) {
+		case *ast.ParenExpr:
+			cur = x.X
+			continue
+		case *ast.StarExpr:
+			direct = false
+			cur = x.X
+			continue
+		case *ast.IndexExpr:
+			direct = false
+			cur = x.X
+			continue
+		case *ast.SliceExpr:
+			direct = false
+			cur = x.X
+			continue
+		case *ast.SelectorExpr:
+			if s, ok := w.p.info.Selections[x]; ok && s.Kind() == types.FieldVal {
+				if n := w.x.repoNamedStruct(s.Recv()); n != nil && w.x.sharedTypes[n.Obj().Pkg().Path()+"."+n.Obj().Name()] {
+					shared = true
+				}
+				cur = x.X
+				continue
+			}
+		}
+		break
+	}
+	if !direct || !shared {
+		fieldKey = ""
+	}
+	return shared, "", fieldKey
+}
+
+func varKey2(v *types.Var) string { return varKey(v) }
+
+func (w *walker) appendTo(c *ast.CallExpr, dst ast.Expr, what string) {
+	if w.clipped(dst) {
+		return
+	}
+	// a parameter that is appended to: callers passing shared slices are flagged
+	d := stripParens(dst)
+	if sl, ok := d.(*ast.SliceExpr); ok {
+		d = stripParens(sl.X)
+	}
+	if id, ok := d.(*ast.Ident); ok && w.fn != nil && !w.inLit {
+		if v, ok := w.p.info.Uses[id].(*types.Var); ok {
+			if i, isParam := w.params[v]; isParam && i >= 0 && !w.fn.app[i] {
+				w.fn.app[i] = true
+				w.x.changed = true
+			}
+		}
+	}
+	shared, vk, fk := w.sharedPath(dst)
+	if !shared {
+		return
+	}
+	w.x.appCands = append(w.x.appCands, appCand{pos: w.x.pos(c.Pos()), path: types.ExprString(dst), what: what, varKey: vk, fieldKey: fk})
+}
+
+func (x *extractor) emitSharedAppends(b *bytes.Buffer) {
+	var keep []appCand
+	for _, c := range x.appCands {
+		if c.varKey != "" {
+			if v := x.vars[c.varKey]; v != nil && v.initLit && len(v.writes) == 0 {
+				continue
+			}
+		}
+		if c.fieldKey != "" {
+			ok := true
+			for _, e := range x.fieldVals[c.fieldKey] {
+				ok = ok && e
+			}
+			if ok {
+				continue
+			}
+		}
+		keep = append(keep, c)
+	}
+	sort.Slice(keep, func(i, j int) bool { return keep[i].pos < keep[j].pos })
+	b.WriteString("/-- appends to shared slices whose spare capacity is not known to be zero (must be empty) -/\ndef sharedAppends : List SharedAppend := [")
+	for i, c := range keep {
+		if i > 0 {
+			b.WriteString(",")
+		}
+		fmt.Fprintf(b, "\n  ⟨%s, %s, %s⟩", leanString(c.pos), leanString(c.path), leanString(c.what))
+		fmt.Fprintf(os.Stderr, "translator: conc: shared append at %s: %s (%s)\n", c.pos, c.path, c.what)
+	}
+	fmt.Fprintf(b, "]\n\n/-- %d append sites on shared slices examined -/\ndef sharedAppendSites : Nat := %d\n\n", len(x.appCands), len(x.appCands))
 }
